@@ -72,6 +72,7 @@ def run(ctx):
     r3.floor("propagation-sites", n)
 
     sibling(ctx, lexpr)
+    content_error_first(ctx, lexpr)
     if ctx.tier == "thorough":
         from .. import selftest
         selftest.check_errdrop(ctx, ctx.rule("CONTROLS", "positive controls: the detectors fire on the seeded fixtures crate"))
@@ -223,3 +224,78 @@ def sibling(ctx, lexpr):
                 r.violation(io_fp, "string-arms", "%s (stream): escape bytes %s, end bytes %s" % (label, lex.fmt_bytes(esc), lex.fmt_bytes(end)))
     except classes.Inexact as e:
         r.violation("<classes>", "inexact", "cannot extract a scanner class: %s" % e)
+
+
+def content_error_first(ctx, lexpr):
+    """A list / vector whose contents fail to parse is closed before the failure is reported (end_seq gives the depth
+    level back), and the contents' error - which may carry the stream's I/O error - is the one returned, whatever
+    the closing step answers.  Both APIs, every token that opens a sequence; the content parser answers a marked
+    error, the closing step succeeds or fails with another one."""
+    from .. import facts as F, lex, sim
+    from ..sim import Adt, Opq, UNK
+    r = ctx.rule("R-CONTENT-ERR-FIRST", "when the contents of a list or vector fail, next_value / next_datum return that very "
+                                        "error, also if closing the sequence fails too (a read failure inside is not replaced)")
+    P = "parse::Parser::<R>::"
+    tok = lexpr.adts.get("parse::Token")
+    if not tok:
+        r.anchor_missing("parse::Token")
+        return
+    RES, OPT = "std::result::Result", "std::option::Option"
+    sub = {P + "parse_list", P + "parse_list_meta", P + "parse_vector", P + "parse_vector_meta", P + "parse_byte_list"}
+    n = 0
+    for fp in (P + "next_value", P + "next_datum"):
+        f = lexpr.fn(fp)
+        if f is None:
+            r.anchor_missing(fp)
+            continue
+        for v in tok["variants"]:
+            if v["name"] not in ("ListOpen", "VecOpen"):
+                continue
+            pay = [0x29 if fl["ty"] == "u8" else Opq("payload") for fl in v["fields"]]
+            tv = Adt("parse::Token", v["idx"], pay, v["name"])
+            marker = Opq("content-error")
+
+            def hook(S, fn, bb, t, args, path, tv=tv, marker=marker):
+                nm = F.callee_names(t)
+                if P + "parse_whitespace" in nm:
+                    return ("value", Adt(RES, 0, [Adt(OPT, 1, [65])]))
+                if P + "parse_token" in nm:
+                    return ("value", Adt(RES, 0, [tv]))
+                if nm & sub or any(x.startswith(P + "parse_list_with") or x.startswith(P + "parse_vector_with") for x in nm):
+                    return ("value", Adt(RES, 1, [marker]))
+                if P + "end_seq" in nm:
+                    return ("fork", [Adt(RES, 0, [sim.Tup([])]), Adt(RES, 1, [Opq("end-error")])])
+                return None
+
+            S = sim.Sim([lexpr], hooks={"call": hook}, inline=lex.helper_inline(lexpr), max_depth=5, max_paths=6000)
+            outs = set()
+            used = False
+            try:
+                for p in S.run(f):
+                    if p.end != "return":
+                        outs.add("?" + str(p.end)) if p.end != "panic" else outs.add("panic")
+                        continue
+                    if not any(e[0] == "call" and (e[1] & sub) for e in p.events) and \
+                            not any(e[0] == "call" and any(x.startswith(P + "parse_list_with") or x.startswith(P + "parse_vector_with") for x in e[1]) for e in p.events):
+                        continue        # a path that never got to the contents (recursion limit)
+                    used = True
+                    rr = p.ret
+                    if isinstance(rr, Adt) and rr.adt.endswith("Result") and rr.variant == 1:
+                        e0 = S._deref(rr.fields[0], p)
+                        outs.add("content-error" if isinstance(e0, Opq) and e0.root == "content-error" else
+                                 ("end-error" if isinstance(e0, Opq) and e0.root == "end-error" else "other-error"))
+                    else:
+                        outs.add("no-error")
+            except sim.Limit:
+                outs = {"?limit"}
+            n += 1
+            desc = "%s after %s" % (fp.rsplit("::", 1)[1], v["name"])
+            if used and outs == {"content-error"}:
+                r.ok("%s: the contents' error is returned whether or not closing succeeds" % desc, f)
+            elif not used or any(o.startswith("?") for o in outs):
+                r.violation(fp, "inexact:%s" % v["name"], "%s could not be evaluated (%s)" % (desc, sorted(outs)), f.loc())
+            else:
+                r.violation(fp, "content-error:%s" % v["name"],
+                            "%s: with failing contents the call ends in %s; the contents' error (which may be the stream's "
+                            "I/O error) must be the one reported" % (desc, sorted(outs)), f.loc())
+    r.floor("sequence-openers", n)
